@@ -360,6 +360,7 @@ PROPS["C15"] = dict(
 
 PROPS["C16"] = dict(
     module="RaptorModel.Props.C16",
+    extra_theorem_modules=["RaptorModel.Props.C16Par"],
     harnesses=["h_sa"],
     configs=sa_configs("C16", [1, 2, 3, 4, 6], [1, 2, 3, 4, 5, 6, 8, 12, 16]),
     rule=("arbitrary aggregations (random number/size of aggregates, singletons, aggregates spanning ranks, unaggregated vertices), candidate "
